@@ -185,7 +185,9 @@ func stemsMatch(want []funit.Int16, got []float64) bool {
 		return false
 	}
 	for i := 0; i < n; i++ {
-		if float64(want[i]) != got[i] {
+		// the independent decoder adds side bearing and relative position in
+		// floating point (both may be quotients); 1e-9 is far below any real difference
+		if math.Abs(float64(want[i])-got[i]) > 1e-9 {
 			return false
 		}
 	}
